@@ -34,6 +34,15 @@ theorem inv_init (s : Sess) : Inv (initCS s) where
     owners := fun x hx t ht => by
       simp only [initCS, List.mem_singleton] at hx; rw [hx] at ht; cases ht }
 
+/-- what an inert inbound frame leaves alone -/
+theorem recv_core (s : Sess) (f : Frame) (hq : inertCmd f.cmd = true) :
+    (s.handleFrame f).1.wire = s.wire ∧ (s.handleFrame f).1.buffer = s.buffer ∧ (s.handleFrame f).1.closed = s.closed ∧
+    (s.handleFrame f).1.shut = s.shut ∧ (s.handleFrame f).1.scheme = s.scheme := by
+  have h := handleFrame_inert s f hq
+  unfold Sess.core at h
+  simp only [Prod.mk.injEq] at h
+  exact ⟨h.1, h.2.1, h.2.2.1, h.2.2.2.1, h.2.2.2.2.1⟩
+
 theorem inv_step {cs cs' : CS} (h : Inv cs) (st : Step cs cs') : Inv cs' := by
   cases st with
   | act _ t hm => exact ⟨WInv_micro _ _ t h.w hm, OrdInv_micro _ _ t h.o hm, IdInv_micro _ _ t h.i hm⟩
@@ -90,6 +99,12 @@ theorem inv_step {cs cs' : CS} (h : Inv cs) (st : Step cs cs') : Inv cs' := by
       · have := h.i.owners x hx t ht
         show t < cs.n + 1; omega
   | env b => exact ⟨⟨h.w.excl, h.w.eq, h.w.fail, h.w.pre⟩, ⟨h.o.pre, h.o.eq, h.o.ac⟩, ⟨h.i.unused, h.i.owners⟩⟩
+  | recv f hq =>
+    obtain ⟨c1, c2, c3, _, _⟩ := recv_core cs.s f hq
+    refine ⟨WInv_quiet h.w h.w.excl (quiet_s cs _ c1 c2 (fun hc => by rw [c3]; exact hc)), ?_, ⟨h.i.unused, h.i.owners⟩⟩
+    exact ⟨h.o.pre, fun hc => h.o.eq (by rw [← c3]; exact hc), fun t ht => by
+      show (cs.s.handleFrame f).1.closed = true
+      rw [c3]; exact h.o.ac t ht⟩
 
 theorem inv_reach (s : Sess) {cs : CS} (r : Reach (initCS s) cs) : Inv cs := by
   induction r with
@@ -131,6 +146,7 @@ theorem log_grows (s : Sess) {cs : CS} (r : Reach (initCS s) cs) : ∃ more, cs.
       exact ⟨more ++ add, by rw [hl, hm, List.append_assoc]⟩
     | spawn k _ _ _ => exact ⟨more, hm⟩
     | env b => exact ⟨more, hm⟩
+    | recv f _ => exact ⟨more, hm⟩
 
 /-- T11.3 `settings_first`: whatever was in the session's initial buffer (for a client: exactly
 the Settings frame, `Sess.startClient`) precedes everything any task writes: the wire is a
@@ -164,6 +180,7 @@ theorem whole_units (s : Sess) {cs : CS} (r : Reach (initCS s) cs) : WholeUnits 
           · exact Or.inr e
       | spawn k _ _ _ => exact ⟨more, hm, hgood⟩
       | env b => exact ⟨more, hm, hgood⟩
+      | recv f _ => exact ⟨more, hm, hgood⟩
   obtain ⟨more, hm, hgood⟩ := pads
   refine ⟨more, hm, fun x hx => ?_⟩
   rcases hgood x hx with ⟨t, e⟩ | e
@@ -190,6 +207,7 @@ theorem syn_reach (s : Sess) {cs : CS} (r : Reach (initCS s) cs) : SynInv cs := 
       · rename_i e; simp only [e, if_true] at h; rw [hsid] at h; cases h
       · rename_i e; simp only [e, if_false] at h; exact ih u sid h
     | env b => exact ih
+    | recv f _ => exact ih
 
 theorem dataFrames_shape (sid : Nat) : ∀ (fuel : Nat) (data : Bytes), ∀ f ∈ dataFrames fuel sid data,
     ∃ chunk, f = { cmd := .push, sid := sid, data := chunk } := by
@@ -232,6 +250,30 @@ theorem syn_before_own_data (s : Sess) {cs cs' : CS} (r : Reach (initCS s) cs) (
   obtain ⟨f, hf, e⟩ := hb
   obtain ⟨chunk, hc⟩ := dataFrames_shape sid _ _ f hf
   exact ⟨chunk, by rw [← e, hc]⟩
+
+/-- `registered_before_syn` (used by C01 and C10): the step that hands a stream's SYN to
+`write_frame` is the step that registers the stream in BOTH tables — so at every moment at which
+the SYN can be on the wire (or even in the buffer) the receive loop already knows the stream:
+a SYNACK, data or FIN that arrives while the opener is still inside the SYN write finds it
+(`Step.recv` may happen at any point; what it then does to the stream is C01 / C02 / C10). -/
+theorem registered_before_syn (cs cs' : CS) (t : Nat) (hpc : (cs.task t).pc = .openChecked) (hm : micro cs t = some cs') :
+    let sid := cs.s.nextSid
+    let h := cs.s.objs.length
+    tblGet cs'.s.streams sid = some h ∧ tblGet cs'.s.recv sid = some h ∧ cs'.s.objs[h]? = some { sid := sid } ∧
+    (cs'.task t).submitted = (cs.task t).submitted ++ [synBytes sid] ∧ cs'.log = cs.log := by
+  unfold micro at hm
+  simp only [hpc] at hm
+  cases hm
+  refine ⟨?_, ?_, ?_, ?_, rfl⟩
+  · show tblGet (tblInsert cs.s.streams cs.s.nextSid cs.s.objs.length) cs.s.nextSid = _
+    rw [tblGet_insert]; simp
+  · show tblGet (tblInsert cs.s.recv cs.s.nextSid cs.s.objs.length) cs.s.nextSid = _
+    rw [tblGet_insert]; simp
+  · show (cs.s.objs ++ [({ sid := cs.s.nextSid } : Obj)])[cs.s.objs.length]? = _
+    simp
+  · rw [submit_self]
+    show ((CS.setTask _ t _).task t).submitted ++ _ = _
+    rw [setTask_task, if_pos rfl]; rfl
 
 /-- T11.5 `nothing_dropped`: whenever no write is in progress and no transport write has failed,
 everything accepted is on the wire or still in the initial buffer — nothing was lost. -/
